@@ -246,6 +246,20 @@ def run_case(case, ctx):
         d = tree_diff(case["tree"], xcanon(co, tver), nan_loose=(tver < (2, 5) or bool(case.get("textfloat"))))
         if d:
             ctx.violation(sig_of_diff(tver, d), "load_module tree differs at %s: expected %s got %s" % d)
+    # (a') the same loader handed the caller's own code_objects dict, *reused* from file to file as a driver that walks a
+    # directory does: what is already in the dict must not change what the next file decodes to
+    if co is not None and case["kind"] == "prog":
+        ctx.count("routes_code_objects_reused")
+        try:
+            res3 = load_module_from_file_object(io.BytesIO(data), filename="<c01>", code_objects=_SHARED_CODE_OBJECTS)
+            d = tree_diff(case["tree"], xcanon(res3[3], tver), nan_loose=(tver < (2, 5) or bool(case.get("textfloat"))))
+            if d:
+                ctx.violation("%d.%d:route:code_objects-reused:%s" % (tver[0], tver[1], sig_of_diff(tver, d)),
+                              "load_module(..., code_objects=<dict used for %d earlier files>) differs at %s: expected %s got %s" % ((len(_SHARED_CODE_OBJECTS),) + d))
+        except Exception as e:
+            ctx.violation("%d.%d:route:code_objects-reused:raises:%s" % (tver[0], tver[1], type(e).__name__), str(e)[:300])
+        if len(_SHARED_CODE_OBJECTS) > 5000:
+            _SHARED_CODE_OBJECTS.clear()
     # (b) the portable unmarshaller directly, with consumption accounting
     payload = data[hl:]
     for tail in (b"", b"\x00", b"N", b"sentinel"):
@@ -263,6 +277,9 @@ def run_case(case, ctx):
             d = tree_diff(case["tree"], xcanon(co2, tver), nan_loose=(tver < (2, 5) or bool(case.get("textfloat"))))
             if d:
                 ctx.violation(sig_of_diff(tver, d), "load_code tree differs at %s: expected %s got %s" % d)
+
+
+_SHARED_CODE_OBJECTS = {}
 
 
 def run_corpus(case, ctx):
